@@ -619,6 +619,21 @@ def fam_straddle(rng):
     coordinate only (the shortcut and early-exit conditions of C09)"""
     L = rng.choice([4, 6, 8])
     a = lattice_polygon(rng, L, nmax=6)
+    if rng.random() < 0.4:
+        # overhang: a triangle reaching over the right (after a symmetry: any) side of A with two consecutive vertices beyond it,
+        # whose only vertex inside A's x-range lies outside A's y-range
+        x1 = float(rng.randrange(1, L))
+        x2 = float(L + rng.randrange(1, 6))
+        ylo, yhi = float(-rng.randrange(1, L + 1)), float(L + rng.randrange(1, 3 * L))
+        b = rng.choice([[(x1, ylo), (x2, yhi), (x2, ylo)], [(x1, yhi), (x2, ylo), (x2, yhi)],
+                        [(x1, ylo), (x2, ylo), (x2, yhi)], [(x1, yhi), (x2, yhi), (x2, ylo)]])
+        k = rng.randrange(3)
+        b = b[k:] + b[:k]
+        f = rng.choice(_SYM8)
+        oa, ob = ('M', [[[f(x, y) for (x, y) in a]]]), ('M', [[[f(x, y) for (x, y) in b]]])
+        if rng.random() < 0.3:
+            oa, ob = ob, oa
+        return oa, ob, {'family': 'straddle', 'L': L, 'overhang': True}
     for _ in range(60):
         n = rng.randrange(3, 6)
         pts = [(float(rng.randrange(-L, 2 * L + 1)), float(rng.randrange(-L, 2 * L + 1))) for _ in range(n)]
@@ -864,3 +879,191 @@ def fam_ulp32(rng):
 
 
 FAMILIES['ulp32'] = fam_ulp32
+
+
+def fam_abut(rng):
+    """interior-disjoint operands that share boundary segments: B is a random set of cells of the COMPLEMENT of A adjacent to A
+    (so B touches A from outside — below, above, left, right, around holes), A typically has holes"""
+    if rng.random() < 0.35:
+        # a frame (box with a hole) and a slab abutting one of its sides along part of an edge, the hole lying directly
+        # behind the shared piece; all 8 poses
+        W, H = rng.randrange(4, 9), rng.randrange(4, 9)
+        ha = rng.randrange(1, W - 1)
+        hb = rng.randrange(ha + 1, W)
+        hc = rng.randrange(1, H - 1)
+        hd = rng.randrange(hc + 1, H)
+        u0 = rng.randrange(-2, hb)
+        u1 = rng.randrange(max(u0 + 1, ha + 1), W + 3)
+        h = rng.randrange(1, 4)
+        frame = [[(0.0, 0.0), (float(W), 0.0), (float(W), float(H)), (0.0, float(H))],
+                 [(float(ha), float(hc)), (float(ha), float(hd)), (float(hb), float(hd)), (float(hb), float(hc))]]
+        slab = [[(float(u0), float(-h)), (float(u1), float(-h)), (float(u1), 0.0), (float(u0), 0.0)]]
+        f = rng.choice(_SYM8)
+        g_ = lambda p: [[f(x, y) for (x, y) in r] for r in p]  # noqa: E731
+        a, b = ('M', [g_(frame)]), ('M', [g_(slab)])
+        if rng.random() < 0.35:
+            a, b = b, a
+        return a, b, {'family': 'abut', 'frame': True}
+    n = rng.randrange(3, 6)
+    mode = rng.choice([0, 0, 1])
+    ca = gen_cells(rng, n, rng.choice([0.55, 0.7, 0.8]), mode)
+    allc = [(x, y, k) for x in range(-1, n + 1) for y in range(-1, n + 1) for k in range(4)]
+    comp = [c for c in allc if c not in ca]
+    cb = set()
+    for c in comp:
+        if rng.random() < 0.45:
+            if mode == 0:
+                grp = [(c[0], c[1], k) for k in range(4)]
+                if all(g not in ca for g in grp):
+                    cb.update(grp)
+            else:
+                cb.add(c)
+    if not cb:
+        cb = {c for c in comp if c[1] == -1}
+    kc = rng.random() < 0.3
+    a = ('M', fpoly(cells_to_polygons(ca, kc)))
+    b = ('M', fpoly(cells_to_polygons(cb, kc)))
+    if rng.random() < 0.5:
+        a, b = b, a
+    return a, b, {'family': 'abut', 'n': n}
+
+
+def fam_punch(rng):
+    """A is one big square, B a set of small triangles and squares inside it, many of which touch each other in single
+    vertices: differences and xors have holes that touch at a vertex (also at their common leftmost / lowest vertex)"""
+    if rng.random() < 0.35:
+        # a fan of triangles that all have the vertex V as their extreme (leftmost, after a symmetry: any) vertex and touch
+        # each other only there
+        V = (float(rng.randrange(1, 4)), float(rng.randrange(3, 8)))
+        dirs = set()
+        while len(dirs) < 6:
+            dx, dy = rng.randrange(1, 5), rng.randrange(-4, 5)
+            g = math.gcd(dx, abs(dy)) or 1
+            dirs.add((dx // g, dy // g))
+        dirs = sorted(dirs, key=lambda v: math.atan2(v[1], v[0]))
+        ntri = rng.choice([2, 2, 3])
+        tris = []
+        for t in range(ntri):
+            d0, d1 = dirs[2 * t], dirs[2 * t + 1]
+            s0, s1 = rng.randrange(1, 3), rng.randrange(1, 3)
+            tris.append([V, (V[0] + d0[0] * s0, V[1] + d0[1] * s0), (V[0] + d1[0] * s1, V[1] + d1[1] * s1)])
+        big = [(-1.0, -8.0), (14.0, -8.0), (14.0, 18.0), (-1.0, 18.0)]
+        f = rng.choice(_SYM8)
+        g_ = lambda r: [f(float(x), float(y)) for (x, y) in r]  # noqa: E731
+        a = ('M', [[g_(big)]])
+        b = ('M', [[g_(t)] for t in tris])
+        if rng.random() < 0.3:
+            a, b = b, a
+        return a, b, {'family': 'punch', 'fan': ntri}
+    n = rng.randrange(2, 5)
+    cb = gen_cells(rng, n, rng.choice([0.3, 0.5]), 1)
+    if not cb:
+        cb = {(0, 0, 0), (0, 0, 2)}
+    m = float(rng.choice([1, 2]))
+    big = [(-m, -m), (2.0 * n + m, -m), (2.0 * n + m, 2.0 * n + m), (-m, 2.0 * n + m)]
+    a = ('M', [[big]])
+    b = ('M', fpoly(cells_to_polygons(cb, rng.random() < 0.3)))
+    if rng.random() < 0.3:
+        a, b = b, a
+    return a, b, {'family': 'punch', 'n': n}
+
+
+def fam_tjunc(rng):
+    """one operand consists of a box and a triangle whose vertex lies in the interior of an edge of the box (a T-junction
+    inside ONE operand: valid, the parts touch in a point); the other operand is a small polygon near the junction.  All 8
+    symmetries, so the touching vertex is a leftmost, rightmost, top or bottom one."""
+    L = 8
+    t = float(rng.randrange(2, 2 * L - 1))
+    apex = (t, 0.0)                                     # on the top edge y = 0 of the box [0, 2L] x [-4, 0]
+    h = float(rng.randrange(2, 6))
+    dx1, dx2 = float(rng.randrange(-6, 0)), float(rng.randrange(1, 7))
+    kind = rng.choice(['above', 'side'])
+    if kind == 'above':
+        tri = [apex, (t + dx2, h), (t + dx1, h)]
+    else:
+        tri = [apex, (t + dx2, h), (t + dx2 + float(rng.randrange(1, 4)), float(rng.randrange(1, 4)))]
+    box = [(0.0, -4.0), (2.0 * L, -4.0), (2.0 * L, 0.0), (0.0, 0.0)]
+    if not simple_ring_ok(tri) or any(p[1] <= 0 for p in tri[1:]):
+        tri = [apex, (t + 2.0, 3.0), (t - 2.0, 3.0)]
+    # the other operand: a small lattice polygon somewhere around the junction
+    for _ in range(40):
+        cx, cy = t + rng.uniform(-5, 5), rng.uniform(-3, 4)
+        n = rng.randrange(3, 6)
+        pts = [(float(round(cx + rng.uniform(-4, 4))), float(round(cy + rng.uniform(-4, 4)))) for _ in range(n)]
+        mx = sum(p[0] for p in pts) / n
+        my = sum(p[1] for p in pts) / n
+        pts.sort(key=lambda p: math.atan2(p[1] - my, p[0] - mx))
+        if simple_ring_ok(pts):
+            break
+    else:
+        pts = [(t - 3.0, 1.0), (t + 3.0, 1.0), (t, 3.0)]
+    f = rng.choice(_SYM8)
+    g = lambda r: [f(x, y) for (x, y) in r]  # noqa: E731
+    a = ('M', [[g(box)], [g(tri)]])
+    if rng.random() < 0.5:
+        a = ('M', [[g(tri)], [g(box)]])
+    b = ('M', [[g(pts)]])
+    if rng.random() < 0.5:
+        a, b = b, a
+    return a, b, {'family': 'tjunc'}
+
+
+def with_repeats(rng, o):
+    """the same operand with some vertices repeated consecutively (and closing points repeated)"""
+    kind, v = o
+    polys = [v] if kind == 'P' else v
+    out = []
+    for p in polys:
+        q = []
+        for r in p:
+            r2 = []
+            for pt_ in r:
+                r2.extend([pt_] * (1 + (rng.random() < 0.3) + (rng.random() < 0.1)))
+            if r2 and rng.random() < 0.4:
+                r2 = r2 + [r2[0]] * rng.randrange(1, 3)
+            q.append(r2)
+        out.append(q)
+    return (kind, out[0]) if kind == 'P' else (kind, out)
+
+
+FAMILIES['abut'] = fam_abut
+FAMILIES['punch'] = fam_punch
+FAMILIES['tjunc'] = fam_tjunc
+EXACT_FAMILIES = EXACT_FAMILIES + ('abut', 'punch')
+
+
+def fam_tjunc_oct(rng):
+    """exact-arithmetic T-junctions inside one operand: a bar of full squares (its long edges carry no intermediate vertex)
+    and single triangles above / below it that touch the bar's edge in one vertex; the other operand: random triangles and
+    squares around.  Octilinear lattice, so every clause is exact."""
+    n = rng.randrange(3, 7)
+    ca = {(x, 0, k) for x in range(n) for k in range(4)}
+    for x in range(n):
+        for y in (1, -1):
+            r = rng.random()
+            if r < 0.35:
+                ca.add((x, y, rng.choice([1, 3])))
+            elif r < 0.45:
+                ca.add((x, y, 2 if y == 1 else 0))
+    cb = set()
+    for x in range(-1, n + 1):
+        for y in (-1, 0, 1, 2):
+            r = rng.random()
+            if r < 0.12:
+                cb.update((x, y, k) for k in range(4))
+            elif r < 0.45:
+                cb.update((x, y, k) for k in range(4) if rng.random() < 0.4)
+    if not cb:
+        cb = {(0, 1, 0)}
+    a = ('M', fpoly(cells_to_polygons(ca, False)))
+    b = ('M', fpoly(cells_to_polygons(cb, rng.random() < 0.3)))
+    f = rng.choice(_SYM8)
+    from .relprops import map_operand
+    a, b = map_operand(a, f), map_operand(b, f)
+    if rng.random() < 0.5:
+        a, b = b, a
+    return a, b, {'family': 'tjo', 'n': n}
+
+
+FAMILIES['tjo'] = fam_tjunc_oct
+EXACT_FAMILIES = EXACT_FAMILIES + ('tjo',)
